@@ -13,7 +13,8 @@ RULE = ("case = (transport in {RTU/UDP, Modbus/TCP}, keep-alive, command kind, e
 ASSUMPTIONS = [
     "reference reasons: codes 1-3 verbatim from the property, 4-8/10/11 from the Modbus application protocol after "
     "normalising SLAVE=SERVER and ACKNOWLEDGEMENT=ACKNOWLEDGE, every other code 'UNKNOWN'",
-    "exception frame = function code of the request with the high bit set, one code byte, valid CRC (RTU)",
+    "exception frame = any function code with the high bit set (the request's own | 0x80 in the main sweep, all 128 in the "
+    "'fcx' sweep), one code byte, valid CRC (RTU)",
     "virtual-clock loop / in-memory transports (vlib/vloop.py)",
 ]
 EPS = 1e-9
@@ -39,8 +40,8 @@ def check_case(acc: Acc, case):
     transport, T, R = case["transport"], case["T"], case["R"]
     idx, d, code, kind = case["idx"], case["delay"], case["code"], case["kind"]
     corrupt = case.get("corrupt", False)
-    if code != 4 or idx > 0 or corrupt:
-        acc.nontrivial(transport, case["keep"], T, R, idx, d, code, kind, corrupt, case.get("pre", "drop"), repr(case.get("mbap")))
+    if code != 4 or idx > 0 or corrupt or case.get("fcx") is not None:
+        acc.nontrivial(transport, case["keep"], T, R, idx, d, code, kind, corrupt, case.get("pre", "drop"), repr(case.get("mbap")), case.get("fcx"))
     pre = case.get("pre", "drop")
     if pre.startswith("lone") and kind != "read":
         pre = "drop"
@@ -48,6 +49,12 @@ def check_case(acc: Acc, case):
     if corrupt:
         frame = rw.rtu_exception_response(0xF7, {"read": 3, "write": 6, "write_multi": 16}[kind], code)
         frame = frame[:-1] + bytes((frame[-1] ^ 0x40,))
+        script = script + [["raw", d, frame]]
+    elif case.get("fcx") is not None:
+        # the property speaks of any frame whose function code has the high bit set (valid checksum), not only request|0x80
+        fcx = case["fcx"]
+        frame = rw.rtu_exception_response(0xF7, fcx & 0x7F, code) if transport == "udp" else rw.tcp_exception_response(0x0102, 0xF7, fcx & 0x7F, code)
+        assert frame[3 if transport == "udp" else 7] == fcx
         script = script + [["raw", d, frame]]
     elif case.get("mbap") is not None and transport == "tcp":
         # GoodWe firmware is known to send inconsistent MBAP headers (e.g. it echoes the request's header, length 6, in front
@@ -107,6 +114,11 @@ def enum_job(job):
                 _apply(acc, case)
                 if code == 2 and idx and len(acc.samples) < 1:
                     acc.sample(case)
+    for fcx in range(0x80, 0x100):   # every function code with the high bit set, also ones that do not mirror the request's
+        for code in ((2,) if fcx % 8 else (1, 2, 3, 11, 200)):
+            for idx in idxs:
+                _apply(acc, {"transport": transport, "keep": keep, "kind": kind, "T": T, "R": R, "idx": idx, "delay": delays[0],
+                             "code": code, "fcx": fcx})
     if transport == "tcp":   # inconsistent MBAP headers in front of the exception PDU
         for mbap in ((6, 0), (0, 0), (0xFFFF, 0), (2, 0), (3, 1), (256, 0xFFFF)):
             for code in (1, 2, 3, 6, 11, 200):
@@ -159,6 +171,7 @@ def hyp_job(job):
                 "T": draw(st.sampled_from((0.5, 1.0, 2.0, 4.0))), "R": R, "idx": draw(st.integers(0, R)),
                 "delay": draw(st.integers(0, 15)), "code": draw(st.integers(0, 255)), "latency": draw(st.integers(0, 3)),
                 "pre": draw(st.sampled_from(("drop", "drop", "lone-missing-7", "lone-missing-9", "lone-missing-5"))),
+                "fcx": draw(st.one_of(st.none(), st.none(), st.integers(0x80, 0xFF))),
                 "mbap": draw(st.one_of(st.none(), st.none(), st.tuples(st.integers(0, 0xFFFF), st.sampled_from((0, 0, 1, 0xFFFF))).map(list)))}
 
     def body(case):
